@@ -283,7 +283,7 @@ pub fn check_proc(c: &ProcCase, obs: &mut Obs, reps: usize) -> Verdict {
             (o.code, out, o.stderr_s())
         };
         let first = proc::run_cli(&sc, &args);
-        if first.signal.is_some() || !matches!(first.code, Some(0) | Some(1) | Some(2)) {
+        if crate::props::proc_checks::no_crash(&first).is_err() {
             if first.code == Some(101) && first.stderr_s().contains("overflowed") {
                 continue;
             }
